@@ -24,6 +24,7 @@ BUDGET = {
     'C13': (1500, 40000),
     'C14': (500, 30000),
     'C15': (600, 30000),
+    'C16': (500, 25000),
     'C17': (1500, 60000),
 }
 
